@@ -159,6 +159,12 @@ func (c *recursionChecker) checkMixedValueNode(
 
 func (c *recursionChecker) checkType(typeName string, types map[string]ischema.Type) error {
 	if !c.visit(typeName) {
+		if typeName != c.path[0] {
+			// A cycle that does not lead back to the checked type is somebody
+			// else's recursion (and was never reported); just stop descending.
+			c.path = c.path[:len(c.path)-1]
+			return nil
+		}
 		return c.createError()
 	}
 	defer c.leave(typeName)
@@ -170,7 +176,10 @@ func (c *recursionChecker) checkType(typeName string, types map[string]ischema.T
 		return nil
 	}
 
-	return c.check(t.Schema.RootNode(), t.Schema.TypesList())
+	// Types referenced from inside this type are looked up in the same table:
+	// a type added with AddType carries no table of its own, and with its empty
+	// table every chain longer than two types ended here unnoticed.
+	return c.check(t.Schema.RootNode(), types)
 }
 
 func (c *recursionChecker) visit(typeName string) bool {
